@@ -1267,7 +1267,7 @@ func facts() map[string]any {
 		h := p.Get(n)
 		cos = append(cos, h != nil && co(h))
 	}
-	return map[string]any{
+	out := map[string]any{
 		"chain_clientonly":      cos,
 		"chain_order":           names,
 		"clientonly_accesslist": co(accesslist.New(cfg)),
@@ -1275,6 +1275,8 @@ func facts() map[string]any {
 		"clientonly_reflex":     co(reflex.New(cfg)),
 		"clientonly_views":      co(views.New(cfg)),
 	}
+	poolFacts(out)
+	return out
 }
 
 func main() { vlib.Main(&vlib.Driver{Facts: facts, Exec: exec, Gen: gen}) }
